@@ -180,7 +180,7 @@ def r9_key_roundtrip(ctx: Ctx, rid: str = "C20.R9") -> None:
         ctx.ob(rid, gk, f"_get_s3_key is the plain prefix join for '{rel}'", None, keys == {want},
                f"prefix '{prefix}': '{rel}' -> {sorted(map(repr, keys))} (expected '{want}'): a path is never taken for an already "
                "prefixed key, a sibling table's key or a differently spelled one", text=f"{prefix}|{rel}")
-    for label, prefix in (("with a table prefix", "tbl"), ("without a prefix", "")):
+    for label, prefix in (("with a table prefix", "tbl"), ("without a prefix", ""), ("with a prefix whose text recurs inside the key", "data")):
         rel = "data/x.parquet"
         env = {"self.prefix": prefix, pname: rel}
         keys = set()
